@@ -226,3 +226,70 @@ fn c13_cast_relation_records() {
     std::mem::forget(b);
     std::mem::forget(sm);
 }
+
+
+// ---------------------------------------------------------------------------
+// record pairs with the subclass test abstracted: Record::is_subclass_of is replaced by an
+// arbitrary (uninterpreted) relation over three classes; decides how can_be_casted_to USES it
+// (direction, identity short-cut, list covariance).  The relation itself (reachability through
+// parent lists) is the job of c13_cast_relation_records.
+
+static mut G_SUB: [[bool; 3]; 3] = [[false; 3]; 3];
+static mut G_IDS: [usize; 3] = [0; 3];
+
+fn rec_index_of_name(r: &Record) -> usize {
+    match r.name.as_str() {
+        "A" => 0,
+        "B" => 1,
+        _ => 2,
+    }
+}
+
+fn stub_is_subclass_of(this: &Record, _sm: &SymbolMap, other: RecordId) -> bool {
+    let a = rec_index_of_name(this);
+    let oi = other.index();
+    let b = unsafe {
+        if oi == G_IDS[0] { 0 } else if oi == G_IDS[1] { 1 } else { 2 }
+    };
+    unsafe { G_SUB[a][b] }
+}
+
+#[kani::proof]
+#[kani::unwind(6)]
+#[kani::stub(std::hash::RandomState::new, fixed_random_state)]
+#[kani::stub(crate::symbol_map::record::Record::is_subclass_of, stub_is_subclass_of)]
+fn c13_cast_relation_record_pairs() {
+    let loc = FileRange::new(FileId(0), TextRange::empty(0.into()));
+    let mut arena: Arena<Record> = Arena::new();
+    let r0 = arena.alloc(Record::new("A".into(), RecordKind::Class, loc));
+    let r1 = arena.alloc(Record::new("B".into(), RecordKind::Class, loc));
+    let r2 = arena.alloc(Record::new("C".into(), RecordKind::Class, loc));
+    let sm = SymbolMap { record_list: arena, ..Default::default() };
+    let sub: [[bool; 3]; 3] = kani::any();
+    unsafe {
+        G_SUB = sub;
+        G_IDS = [r0.index(), r1.index(), r2.index()];
+    }
+    let h = Hier { ids: [r0, r1, r2], e10: false, e20: false, e21: false };
+    let (a, na, la) = any_rec_type(&h, 2);
+    let (b, nb, lb) = any_rec_type(&h, 2);
+    let got = a.can_be_casted_to(&sm, &b);
+    // reference: `?` wildcard; same nesting; records: identical or `a` is a subclass of `b`
+    let want = if la == 5 && na <= nb {
+        true
+    } else if lb == 5 && nb <= na {
+        true
+    } else if na != nb {
+        false
+    } else if la <= 2 && lb <= 2 {
+        la == lb || sub[la as usize][lb as usize]
+    } else {
+        la == lb
+    };
+    assert!(got == want, "C13: a record (or list of records) converts exactly to itself and to its superclasses");
+    kani::cover!(got && la == 2 && lb == 0 && na == 1 && !sub[0][2], "W: list<C> to list<A> by subclassing only");
+    kani::cover!(!got && la == 0 && lb == 2 && na == 1 && sub[2][0], "W: list<A> is not list<C> although C is a subclass of A");
+    std::mem::forget(a);
+    std::mem::forget(b);
+    std::mem::forget(sm);
+}
